@@ -70,6 +70,7 @@ def first_diff(a, b):
     return {"index": min(len(a), len(b)), "len1": len(a), "len2": len(b)}
 
 
+KF_WORKERS = "C13:workers:fuzzing-values-differ-between-one-and-several-workers"
 KF_HASHSEED = "C13:fuzzing-phase:negative-mode-values-depend-on-PYTHONHASHSEED"
 
 
@@ -111,6 +112,10 @@ def run(chk):
         cfg = {"raw": c["raw"], "phases": c["phases"], "modes": c["modes"], "workers": 1, "max_examples": 4,
                "seed": rng.randint(1, 10**6), "steps": 3}
         jobs.append((c["name"], cfg))
+    # boundary seed: 0 is a seed like any other (a truthiness test would silently unseed it)
+    for name, phases in (("examples-links", ["STATEFUL_TESTING"]), ("enum-pattern", ["FUZZING"])):
+        jobs.insert(0, (name, {"raw": RAWS[name], "phases": phases, "modes": ["POSITIVE"], "workers": 1, "max_examples": 4,
+                               "seed": 0, "steps": 3}))
     # corpus: the recorded witness of the hash-seed dependence (F19b) runs first on every run
     jobs.insert(0, ("enum-pattern", {"raw": RAWS["enum-pattern"], "phases": ["FUZZING"], "modes": ["NEGATIVE"], "workers": 1,
                                      "max_examples": 6, "seed": 55072, "steps": 3}))
@@ -143,7 +148,7 @@ def run(chk):
                 return Counter((m, p.split("?")[0], json.dumps([m, p, h, body])) for m, p, h, body in rs)
             if per_op(a["requests"]) != per_op(w["requests"]):
                 d = (per_op(a["requests"]) - per_op(w["requests"])) + (per_op(w["requests"]) - per_op(a["requests"]))
-                sig = signature(cfg, "process") if False else \
+                sig = KF_WORKERS if "FUZZING" in cfg["phases"] else \
                     f"C13:workers:per-operation-requests-differ-from-one-worker:{'+'.join(cfg['phases'])}"
                 chk.violation(sig, "the multiset of requests per operation differs between 1 worker and several workers",
                               {"schema": name, "config": small, "difference": list(d.items())[:4]})
@@ -152,21 +157,30 @@ def run(chk):
     # in-process double runs (same interpreter state carried over: caches, PRNG)
     from schemathesis.engine.phases import PhaseName
     from schemathesis.generation import GenerationConfig, GenerationMode
-    for name, cfg in jobs[:chk.budget(4, len(jobs))]:
+    # one GenerationConfig object is shared by both runs (as a long-lived embedding application would do), with a
+    # user-supplied set of unexpected methods: nothing a run does may leak into the next one through it
+    inproc = jobs[:chk.budget(4, len(jobs))]
+    inproc.insert(0, ("enum-pattern", {"raw": RAWS["enum-pattern"], "phases": ["COVERAGE"], "modes": ["POSITIVE", "NEGATIVE"],
+                                       "workers": 1, "max_examples": 2, "seed": 7, "steps": 3,
+                                       "unexpected_methods": ["patch", "post", "get", "delete"]}))
+    for name, cfg in inproc:
         logs = []
+        shared_generation = GenerationConfig(modes=[GenerationMode[m] for m in cfg["modes"]],
+                                             **({"unexpected_methods": set(cfg["unexpected_methods"])}
+                                                if "unexpected_methods" in cfg else {}))
         for _ in range(2):
             log = []
             from flask import Flask, jsonify, request
             app = Flask("c13")
 
-            @app.route("/<path:p>", methods=["GET", "POST"])
+            @app.route("/<path:p>", methods=["GET", "POST", "PUT", "PATCH", "DELETE", "TRACE", "OPTIONS", "HEAD"])
             def any_(p, log=log):
                 log.append([request.method, request.full_path.rstrip("?"), request.get_data().decode("latin-1")])
                 return (jsonify({"id": 5}), 201) if request.method == "POST" else (jsonify({"id": 5}), 200)
             with E.Server(app) as srv:
                 ec = E.engine_config(phases=[PhaseName[p] for p in cfg["phases"]], workers=1, max_examples=cfg["max_examples"],
                                      seed=cfg["seed"], stateful_step_count=3)
-                ec.execution.generation = GenerationConfig(modes=[GenerationMode[m] for m in cfg["modes"]])
+                ec.execution.generation = shared_generation
                 E.run_engine(E.load_schema(srv.url, raw=cfg["raw"]), ec)
             logs.append(log)
         chk.case("in-process:double-run", key=[name, cfg["phases"], cfg["modes"], cfg["seed"]], nontrivial=bool(logs[0]),
